@@ -50,40 +50,51 @@ theorem Root.build_inv (rules : List Rule) : RootInv rules (Root.build rules) :=
     exact ih _ (fun q hq => hl q (List.mem_cons_of_mem _ hq))
       (Root.addRule_inv rules rt r (hl r (List.mem_cons_self ..)) h)
 
-/-- a rule set as the property means it (distinct names, each with a kind match): all of it is indexed -/
-theorem Root.indexed_eq (rules : List Rule) (hn : (rules.map (·.name)).Nodup) (hk : ∀ r ∈ rules, r.kinds ≠ []) :
-    (Root.build rules).indexed = rules := by
-  suffices h : ∀ (l : List Rule) (rt : Root), ((rt.indexed ++ l).map (·.name)).Nodup → (∀ r ∈ l, r.kinds ≠ []) →
-      (∀ n ∈ rt.names, n ∈ rt.indexed.map (·.name)) →
-      (l.foldl (fun rt r => (rt.addRule r).1) rt).indexed = rt.indexed ++ l by
-    have := h rules {} (by simpa using hn) hk (by simp)
-    simpa [Root.build] using this
+/-- which rules of the list enter the tree -/
+theorem Root.indexed_foldl : ∀ (l : List Rule) (rt : Root),
+    (l.foldl (fun rt r => (rt.addRule r).1) rt).indexed = rt.indexed ++ Spec.accepted l rt.names := by
   intro l
   induction l with
-  | nil => intro rt _ _ _; simp
+  | nil => intro rt; simp [Spec.accepted]
   | cons r rest ih =>
-    intro rt hnd hk hnames
-    have hnot : r.name ∉ rt.names := by
-      intro hc
-      have h1 := hnames _ hc
-      simp only [List.map_append, List.map_cons] at hnd
-      have := (List.nodup_append.mp hnd).2.2 _ h1 r.name (List.mem_cons_self ..)
-      exact this rfl
-    have hkr := hk r (List.mem_cons_self ..)
+    intro rt
     simp only [List.foldl_cons]
-    have hstep : (rt.addRule r).1 = { idx := addRuleIdx rt.idx r, names := r.name :: rt.names, indexed := rt.indexed ++ [r] } := by
-      simp [Root.addRule, hnot, hkr]
-    rw [hstep, ih]
-    · simp
-    · simpa using hnd
-    · exact fun q hq => hk q (List.mem_cons_of_mem _ hq)
-    · intro n hn
-      simp only [List.mem_cons] at hn
-      rcases hn with rfl | hn
+    rw [ih]
+    simp only [Spec.accepted]
+    unfold Root.addRule
+    split
+    · rfl
+    · split
+      · rfl
       · simp
-      · have := hnames n hn
-        simp only [List.map_append, List.mem_append]
-        exact Or.inl this
+
+theorem Root.indexed_accepted (rules : List Rule) : (Root.build rules).indexed = Spec.accepted rules [] := by
+  have := Root.indexed_foldl rules {}
+  simpa [Root.build] using this
+
+theorem Spec.accepted_all : ∀ (l : List Rule) (seen : List String), (l.map (·.name)).Nodup →
+    (∀ r ∈ l, r.name ∉ seen) → (∀ r ∈ l, r.kinds ≠ [] ∧ r.scopeNil = false) → Spec.accepted l seen = l := by
+  intro l
+  induction l with
+  | nil => intro _ _ _ _; rfl
+  | cons r rest ih =>
+    intro seen hnd hs hv
+    simp only [List.map_cons, List.nodup_cons] at hnd
+    have h1 := hs r (List.mem_cons_self ..)
+    have h2 := hv r (List.mem_cons_self ..)
+    simp only [Spec.accepted, h1, if_false, h2.1, h2.2, false_or, Bool.false_eq_true]
+    rw [ih (r.name :: seen) hnd.2 ?_ (fun q hq => hv q (List.mem_cons_of_mem _ hq))]
+    intro q hq
+    simp only [List.mem_cons, not_or]
+    refine ⟨?_, hs q (List.mem_cons_of_mem _ hq)⟩
+    intro hc
+    exact hnd.1 (List.mem_map.mpr ⟨q, hq, hc⟩)
+
+/-- a rule set as the property means it (distinct names, each with a kind and a scope match): all of it is indexed -/
+theorem Root.indexed_eq (rules : List Rule) (hn : (rules.map (·.name)).Nodup)
+    (hk : ∀ r ∈ rules, r.kinds ≠ [] ∧ r.scopeNil = false) :
+    (Root.build rules).indexed = rules := by
+  rw [Root.indexed_accepted, Spec.accepted_all rules [] hn (by simp) hk]
 
 theorem eq_of_name_eq {l : List Rule} (h : (l.map (·.name)).Nodup) :
     ∀ a ∈ l, ∀ b ∈ l, a.name = b.name → a = b := by
